@@ -1,5 +1,6 @@
 import OsloModel.Proto
 import OsloModel.Wrapper
+import OsloProofs.Lemmas.LocalityDefs
 open Oslo Oslo.Insp Oslo.Proto
 
 /-! Line-protocol driver for the inspector group (C01, C02, C03, C05, C06, C07). -/
@@ -67,6 +68,42 @@ def parseContent (s : String) : Option Bytes :=
   if s = "-" then some [] else
   ((s.splitOn "+").mapM parsePart).map List.flatten
 
+/-! ### explicit chunk lists with huge zero runs (sparse streams)
+
+`inspx` names every chunk separately; a chunk written `Z<N>` is a run of N zero bytes that is NOT
+materialised: it is skipped with `eatSkip` when `skippable` holds (sound by `eatSkip_sound` /
+`eat_ignores_bytes_outside_windows` in Props/C01Locality.lean: the result equals `eatChunk` on any
+chunk of that length, and every state reached this way satisfies the invariant the theorem needs by
+`reachable_good2`); when it does not hold the run is materialised if it is small, otherwise the
+driver answers `unmodelled-zero-run`. -/
+
+inductive ChunkX
+  | lit (b : Bytes)
+  | zeros (n : Nat)
+
+def parseChunkX (s : String) : Option ChunkX :=
+  match s.toList with
+  | 'Z' :: rest => (String.ofList rest).toNat?.map ChunkX.zeros
+  | _ => (parseContent s).map ChunkX.lit
+
+def zeroRunCap : Nat := 4 * 1024 * 1024
+
+def eatX (s : Insp) : ChunkX → Option (Insp × Option Err)
+  | .lit b => some (eatChunk s b)
+  | .zeros n =>
+    match eatSkip s n with
+    | some s' => some (s', none)
+    | none => if n ≤ zeroRunCap then some (eatChunk s (List.replicate n 0)) else none
+
+/-- feed with a trace after every chunk; `none` = a zero run that can be neither skipped nor materialised -/
+def feedTraceX : Insp → List ChunkX → List String → Option (Insp × Option Err × List String)
+  | s, [], tr => some (s, none, tr.reverse)
+  | s, c :: cs, tr =>
+    match eatX s c with
+    | none => none
+    | some (s1, some e) => some (s1, some e, ((showState s1 ++ " err=" ++ showErr e) :: tr).reverse)
+    | some (s1, none) => feedTraceX s1 cs (showState s1 :: tr)
+
 /-- feed with a trace after every chunk -/
 def feedTrace : Insp → List Bytes → List String → Insp × Option Err × List String
   | s, [], tr => (s, none, tr.reverse)
@@ -124,6 +161,19 @@ def parseFaults (s : String) : Option (List (String × Nat)) :=
 def parseNames (s : String) : List String := if s = "-" then [] else s.splitOn ","
 
 def handle : List String → String
+  -- inspx <fmt> <chunk;chunk;...> <trace 0|1>: every chunk given explicitly, `Z<N>` = skippable zero run
+  | ["inspx", f, chunks, tr] =>
+    match Fmt.ofName? f, (if chunks = "-" then some [] else (chunks.splitOn ";").mapM parseChunkX) with
+    | some f, some cs =>
+      match Insp.init f with
+      | none => "init-error"
+      | some s0 =>
+        match feedTraceX s0 cs [] with
+        | none => "unmodelled-zero-run"
+        | some (s1, e, trace) =>
+          (if tr = "1" then String.intercalate "|" trace ++ "\t" else "") ++
+            showState s1.finish ++ "\t" ++ showVerdict s1.finish e
+    | _, _ => "bad-request"
   -- insp <fmt> <content> <sizes> <trace 0|1>
   | ["insp", f, content, sizes, tr] =>
     match Fmt.ofName? f, parseContent content, parseNats sizes with
